@@ -125,6 +125,10 @@ def rust_ident(n):
     return n
 
 
+# response types of queries: the specification's name -> the Rust type (some are no type paths)
+RESP_TY = {"QResp": "QResp", "QRespB": "QRespB", "Tup1": "(QResp,)", "Tup2": "(QResp, u64)", "VecTup1": "Vec<(u64,)>", "ArrB": "[QRespB; 2]"}
+
+
 def handler_src(prog, part, m, in_trait):
     """Signature (trait) or echo implementation of one handler."""
     ctx_ty, ctx_fn = CTX[m.get("ctxkind") or m["kind"]]      # (the context type may be written as that of a sibling kind)
@@ -134,7 +138,7 @@ def handler_src(prog, part, m, in_trait):
     # (the plain `impl Interface for Contract` block is not a macro input)
     with_attr = in_trait or part["id"] == "own"
     params = "".join(", %s%s: %s" % (PARAM_ATTR.get(a["t"], "") if with_attr else "", rn(a), gen_name if a["t"] == "GenT" else TYPES[a["t"]][0]) for a in m["args"])
-    ret = (m.get("ret") or m.get("resp") or "QResp") if m["kind"] == "query" else "Response"       # what the handler returns
+    ret = RESP_TY[m.get("ret") or m.get("resp") or "QResp"] if m["kind"] == "query" else "Response"       # what the handler returns
     explicit = m["kind"] == "query" and m.get("explicit")
     aliased = explicit and m.get("sig", "alias") == "alias"
     attr = "#[sv::msg(%s%s)]" % (m["kind"], (", resp=%s" % m["resp"]) if explicit else "")
@@ -148,7 +152,7 @@ def handler_src(prog, part, m, in_trait):
     mutc = "" if m["kind"] == "query" else "        rec::touch(ctx.deps.storage, \"%s\");\n" % m["name"]
     if m["kind"] in ("exec", "instantiate"):
         mutc += "        rec::touch_funds(ctx.deps.storage, &ctx.info.funds);\n"
-    fin = (("rec::qresp_b" if ret == "QRespB" else "rec::qresp") if m["kind"] == "query" else "rec::resp") + '("%s", %d, %s)' % (m["name"], m["code"], ok)
+    fin = ("rec::qresp_t" if m["kind"] == "query" else "rec::resp") + '("%s", %d, %s)' % (m["name"], m["code"], ok)
     if m["kind"] == "instantiate":      # (spawns a child contract when it is handed `zeta` coins: only on the multitest chains)
         fin = 'rec::resp_spawning("%s", %d, %s, &ctx.info.funds)' % (m["name"], m["code"], ok)
     err = "HandlerErr" if part["id"] == "own" else "ContractError"   # interfaces share the contract's error type
